@@ -135,6 +135,10 @@ func (k *checker) call(f plugintypes.Transformation, in string) (out string, ch 
 
 var digits = regexp.MustCompile(`[0-9]+`)
 
+// panicSig: message with the numbers blanked plus the innermost coraza frame
+// (probe.Safe), the same whether the panic was met directly or inside a transaction.
+func panicSig(pan string) string { return "panic:" + digits.ReplaceAllString(pan, "N") }
+
 func (k *checker) outcome(code int, text string) {
 	if k.seen[code] {
 		return
@@ -177,7 +181,7 @@ func (k *checker) eval(master []byte) {
 	in := heapString(master) // fresh heap copy handed to the transformation
 	out, ch, err, pan := k.call(k.f, in)
 	if pan != "" {
-		k.violation("panic:"+digits.ReplaceAllString(pan, "N"), "panics on input "+q(string(master))+": "+pan, direct(k.name, master))
+		k.sink.Violation(panicSig(pan), k.name+": panics on input "+q(string(master))+": "+pan, direct(k.name, master))
 		return
 	}
 	if in != string(master) {
@@ -199,7 +203,7 @@ func (k *checker) eval(master []byte) {
 
 	out2, ch2, err2, pan := k.call(k.f, in)
 	if pan != "" {
-		k.violation("panic:"+digits.ReplaceAllString(pan, "N"), "panics on the second call with input "+q(string(master))+": "+pan, direct(k.name, master))
+		k.sink.Violation(panicSig(pan), k.name+": panics on the second call with input "+q(string(master))+": "+pan, direct(k.name, master))
 		return
 	}
 	if in != string(master) {
@@ -260,7 +264,7 @@ func (k *checker) eval(master []byte) {
 			k.sink.Violation(k.inverseName+":input-modified", fmt.Sprintf("%s: the input string was modified by the call: passed %s, afterwards it reads %s",
 				k.inverseName, q(out), q(arg)), direct(k.inverseName, []byte(out)))
 		case pan != "":
-			k.sink.Violation(k.inverseName+":panic:"+digits.ReplaceAllString(pan, "N"), k.inverseName+" panics on "+q(out)+": "+pan, direct(k.inverseName, []byte(out)))
+			k.sink.Violation(panicSig(pan), k.inverseName+" panics on "+q(out)+": "+pan, direct(k.inverseName, []byte(out)))
 		case derr != nil || back != in:
 			k.sink.Violation(k.inverseName+"-after-"+k.name+":not-identity", fmt.Sprintf("%s(%s(%s)) = %s (err=%v); %s gave %s",
 				k.inverseName, k.name, q(in), q(back), derr, k.name, q(out)), direct(k.name, master))
@@ -282,7 +286,7 @@ func (k *checker) eval(master []byte) {
 		case pan == "" && arg != out:
 			k.violation("input-modified", fmt.Sprintf("the input string was modified by the call: passed %s, afterwards it reads %s", q(out), q(arg)), direct(k.name, []byte(out)))
 		case pan != "":
-			k.violation("panic:"+digits.ReplaceAllString(pan, "N"), "panics on input "+q(out)+": "+pan, direct(k.name, []byte(out)))
+			k.sink.Violation(panicSig(pan), k.name+": panics on input "+q(out)+": "+pan, direct(k.name, []byte(out)))
 		case ierr != nil || again != out:
 			k.violation("not-idempotent", fmt.Sprintf("f(%s) = %s but f(f(..)) = %s (err=%v)", q(in), q(out), q(again), ierr), direct(k.name, master))
 		}
